@@ -360,5 +360,5 @@ func runC07(c c07Case) *Violation {
 func TestC07(t *testing.T) {
 	Ev.Rule = "case = one ingester issuing 2-9 batches (good / empty / unmarshalable; buffered done channels, at most one unbuffered channel whose receiver arrives 150-220 ms late) in a known acceptance order, 0-2 goroutines calling Flush 1-3 times, the run ending with a final Flush or (40%) with Stop while flushes are still queued, stores with 0.3-3 ms latency per call so flushes are queued or in flight, flush triggers by rows / bytes / partition limits / time and ack-only flushes, GOMAXPROCS varied. Oracle: an observer polls the done channels newest-first; on receiving nil for a non-empty batch k every earlier non-empty accepted batch must already hold/have delivered a value, and every earlier nil-acked batch (and k) must be visible to a query issued at that moment; when Flush returns nil the same holds for every batch accepted before Flush was called. Non-trivial: an ack or a Flush return was observed while a flush was in flight (CreateFile started, Update not finished); distinct by case."
 	Ev.Assumptions = []string{"empty batches are acknowledged immediately by design (documented) and carry no ordering obligation; error answers are exempt by the statement", "a late unbuffered receiver is given 40 ms to record a value it has already received"}
-	runChecks(t, "schedules", 200, 5000, genC07(), runC07)
+	runChecks(t, "schedules", 200, 15000, genC07(), runC07)
 }
